@@ -238,12 +238,14 @@ def arange (s e step : Nat) : List Nat :=
 /-- `_find_nodes_on_line(g, nx, s_pt, e_pt)`: `s`, `e` are the node indices closest to the two end
     points (geometric search, input of the model), `axis` the direction in which the end points
     differ (0: x-line, 1: y-line, 2: z-line). -/
+def stride (nx ny axis : Nat) : Nat :=
+  match axis with
+  | 0 => 1                      -- x-line: np.arange(s_node, e_node + 1)
+  | 1 => nx + 1                 -- y-line: step nx[0] + 1
+  | _ => (nx + 1) * (ny + 1)    -- z-line: step (nx[0] + 1) * (nx[1] + 1)
+
 def findNodesOnLine (nx ny axis s e : Nat) : List Nat :=
-  arange (min s e) (max s e + 1)
-    (match axis with
-     | 0 => 1
-     | 1 => nx + 1
-     | _ => (nx + 1) * (ny + 1))
+  arange (min s e) (max s e + 1) (stride nx ny axis)
 
 abbrev T3 := Nat × Nat × Nat
 
@@ -251,6 +253,19 @@ def T3.get (t : T3) : Nat → Nat
   | 0 => t.1
   | 1 => t.2.1
   | _ => t.2.2
+
+/-- node index of a multi-index -/
+def idx3 (nx ny : Nat) (a : T3) : Nat := nodeIdx nx ny a.1 a.2.1 a.2.2
+
+/-- `t` steps from `a` in direction `axis` -/
+def shift (axis : Nat) (a : T3) (t : Nat) : T3 :=
+  match axis with
+  | 0 => (a.1 + t, a.2.1, a.2.2)
+  | 1 => (a.1, a.2.1 + t, a.2.2)
+  | _ => (a.1, a.2.1, a.2.2 + t)
+
+/-- the multi-index is a node of the grid (the third index is not bounded by the numbering) -/
+def InGrid (nx ny : Nat) (a : T3) : Prop := a.1 ≤ nx ∧ a.2.1 ≤ ny
 
 /-- a 3-d tensor grid: cells per direction and node coordinates per direction -/
 structure Grid3 where
@@ -339,5 +354,132 @@ def Grid3.ValidFace (g : Grid3) (f : Nat × T3) : Prop :=
 
 /-- node coordinates strictly increase in every direction -/
 def Grid3.Mono (g : Grid3) : Prop := ∀ c a b, c < 3 → a < b → b ≤ g.n c → g.x c a < g.x c b
+
+/-- an axis-aligned rectangular fracture on the grid plane `x_o = x_o[k0]`, spanning the node
+    indices `a0..a1` × `b0..b1` in the two in-plane directions; `P` lists its (snapped) corners in one
+    of the eight cyclic orders; the tolerance is smaller than half the smallest cell size in
+    direction `o` (as coded: 0.1 of the cell size for `cart_grid`) -/
+structure Grid3.PlaneSpec (g : Grid3) (o k0 a0 a1 b0 b1 : Nat) (p tol : Rat) (P : List (Rat × Rat)) : Prop where
+  ho : o < 3
+  mono : g.Mono
+  hk : k0 ≤ g.n o
+  hp : p = g.x o k0
+  htol : 0 < tol
+  hgap : ∀ i, i < g.n o → tol < (g.x o (i + 1) - g.x o i) / 2
+  ha : a0 < a1 ∧ a1 ≤ g.n (activeDims o).1
+  hb : b0 < b1 ∧ b1 ≤ g.n (activeDims o).2
+  rect : IsRectOrder (g.x (activeDims o).1 a0) (g.x (activeDims o).1 a1)
+    (g.x (activeDims o).2 b0) (g.x (activeDims o).2 b1) P
+
+/-! ## node splitting (`split_grid.split_nodes` / `duplicate_nodes`, zero offset)
+
+After the faces are split, every node of a lower-dimensional neighbour is duplicated once per
+connected component of the cells around it (cells are connected when they still share a face).
+`networkx.connected_components` is modelled by label propagation: every cell of the cluster starts
+with its own index as label and repeatedly takes the minimum label among the cells it shares a face
+with; components are numbered by their smallest cell (the order in which networkx reports them). -/
+
+structure NodeGrid where
+  nN : Nat                       -- sd.num_nodes
+  nC : Nat                       -- sd.num_cells
+  faceNodes : Nat → List Nat     -- columns of sd.face_nodes (stored order)
+  cellFaces : Nat → List Nat     -- columns of sd.cell_faces
+
+def NodeGrid.cellHasNode (g : NodeGrid) (c n : Nat) : Bool := (g.cellFaces c).any (fun f => n ∈ g.faceNodes f)
+
+/-- `cell_clusters`: the cells around node `n`, increasing -/
+def NodeGrid.cluster (g : NodeGrid) (n : Nat) : List Nat := (List.range g.nC).filter (fun c => g.cellHasNode c n)
+
+/-- non-zero of `c2c = cf_loc.T * cf_loc`: the two cells share a face -/
+def NodeGrid.adj (g : NodeGrid) (a b : Nat) : Bool := (g.cellFaces a).any (fun f => f ∈ g.cellFaces b)
+
+def listMin (m : Nat) : List Nat → Nat
+  | [] => m
+  | x :: t => min x (listMin m t)
+
+/-- one round of label propagation for cell `c` -/
+def NodeGrid.stepLab (g : NodeGrid) (L : List Nat) (lab : Nat → Nat) (c : Nat) : Nat :=
+  listMin (lab c) ((L.filter (fun d => g.adj c d)).map lab)
+
+/-- the function with values `vs` on the keys `ks` (identity elsewhere) -/
+def tab : List Nat → List Nat → Nat → Nat
+  | k :: ks, v :: vs, c => if c = k then v else tab ks vs c
+  | _, _, c => c
+
+/-- one round for all cells of the cluster; labels are kept as a list parallel to `L` -/
+def NodeGrid.stepVals (g : NodeGrid) (L vals : List Nat) : List Nat := L.map (g.stepLab L (tab L vals))
+
+def NodeGrid.iterVals (g : NodeGrid) (L : List Nat) : Nat → List Nat → List Nat
+  | 0, v => v
+  | t + 1, v => g.iterVals L t (g.stepVals L v)
+
+/-- labels after `|L|` rounds, starting from every cell labelled by itself -/
+def NodeGrid.labelVals (g : NodeGrid) (L : List Nat) : List Nat := g.iterVals L L.length L
+
+/-- component labels of the cells around a node: smallest cell index of the component -/
+def NodeGrid.labels (g : NodeGrid) (L : List Nat) : Nat → Nat := tab L (g.labelVals L)
+
+/-- the propagation has converged -/
+def NodeGrid.stable (g : NodeGrid) (L : List Nat) (lab : Nat → Nat) : Bool :=
+  L.all (fun c => g.stepLab L lab c = lab c)
+
+/-- one representative (the smallest cell) per component, increasing: the order of the subclusters -/
+def roots (L : List Nat) (lab : Nat → Nat) : List Nat := L.filter (fun c => lab c = c)
+
+/-- what is added to the node index in the faces of component number `t ≥ 1` (`node_occ`):
+    `hit r` = the face belongs to a cell of the component with representative `r` -/
+def offsetAux (hit : Nat → Bool) : List Nat → Nat → Nat
+  | [], _ => 0
+  | r :: rs, t => (if 1 ≤ t ∧ hit r then t else 0) + offsetAux hit rs (t + 1)
+
+structure NodeInfo where
+  L : List Nat
+  vals : List Nat        -- labels of the cells of `L`
+  roots : List Nat
+
+def NodeInfo.lab (i : NodeInfo) : Nat → Nat := tab i.L i.vals
+
+def NodeGrid.info (g : NodeGrid) (n : Nat) : NodeInfo :=
+  let L := g.cluster n
+  let vals := g.labelVals L
+  ⟨L, vals, roots L (tab L vals)⟩
+
+def lookupInfo : List (Nat × NodeInfo) → Nat → Option NodeInfo
+  | [], _ => none
+  | (k, v) :: t, n => if n = k then some v else lookupInfo t n
+
+/-- offset of node `n` in face `f` -/
+def NodeGrid.offset (g : NodeGrid) (i : NodeInfo) (f : Nat) : Nat :=
+  offsetAux (fun r => i.L.any (fun c => i.lab c = r && f ∈ g.cellFaces c)) i.roots 0
+
+structure NodeOut where
+  nN : Nat
+  faceNodes : Nat → List Nat
+  newToOld : List Nat
+
+/-- `added[m]` summed over the split nodes `m < n` (`increment[n]`) -/
+def incBefore (infos : List (Nat × NodeInfo)) (n : Nat) : Nat :=
+  ((infos.filter (fun p => p.1 < n)).map (fun p => p.2.roots.length - 1)).foldl (· + ·) 0
+
+/-- `duplicate_nodes(sd, nodes, 0)`; `none` if the label propagation did not converge -/
+def NodeGrid.duplicateNodes (g : NodeGrid) (split : List Nat) : Option NodeOut :=
+  let infos := split.map (fun n => (n, g.info n))
+  if infos.all (fun p => g.stable p.2.L p.2.lab) then
+    some {
+      nN := g.nN + (infos.map (fun p => p.2.roots.length - 1)).foldl (· + ·) 0
+      faceNodes := fun f => (g.faceNodes f).map (fun n =>
+        n + (match lookupInfo infos n with
+             | some i => g.offset i f
+             | none => 0) + incBefore infos n)
+      newToOld := (List.range g.nN).flatMap (fun n =>
+        List.replicate (match lookupInfo infos n with
+                        | some i => i.roots.length
+                        | none => 1) n) }
+  else none
+
+/-- connectivity of the cells of `L` through shared faces -/
+inductive Conn (g : NodeGrid) (L : List Nat) : Nat → Nat → Prop
+  | refl (a : Nat) : Conn g L a a
+  | step {a b c : Nat} : Conn g L a b → b ∈ L → c ∈ L → g.adj b c = true → Conn g L a c
 
 end PorepyVerif.C25
